@@ -10,7 +10,13 @@ goyacc-generated parser and the compiler is NOT a theorem (a Lean model of that
 Go code is out of reach); it is covered by the search in harness/c08.go.
 -/
 import Martian.Lexer
+import Martian.Regex
 import Proofs.Lexer
+import Proofs.Regex
+import Proofs.LexerRegex
+import Proofs.LexerRegexString
+import Martian.Tokenizer
+import Proofs.Tokenizer
 import Gen.Facts
 
 namespace Props.C08
@@ -136,5 +142,160 @@ theorem lexer_progress (R : Rules) (isSkip : Nat → Bool) (hskip : isSkip INVAL
     ((nextToken R s).1 ≠ INVALID → 0 < (nextToken R s).2.length) ∧
     ∃ r, lex R isSkip (s.length + 1) s = some r :=
   ⟨nextToken_progress R s, lex_total R isSkip hskip _ s (by omega)⟩
+
+/-! ## The rules as REGULAR EXPRESSIONS: regex semantics, matcher, and the tie
+of the hand-written recognisers to the regex text found in tokenizer.go -/
+
+section regex
+open Martian.Regex hiding Bytes isWord
+open Martian.LexerRegex
+
+/-- The leftmost-first matcher is sound for every regex of the AST and every
+input: what it returns is a prefix of the input which the regex matches (in
+the denotational semantics `Matches`, anchors evaluated in context). -/
+theorem regex_matcher_sound (r : Re) (s w : Bytes) (h : pmatch r s = some w) :
+    ∃ post, s = w ++ post ∧ Matches r [] w post :=
+  pmatch_sound h
+
+/-- … and complete: it reports "no match" only when no prefix of the input
+matches (backtracking is exhaustive; the fuel of the star loop suffices;
+skipping empty iterations loses nothing). -/
+theorem regex_matcher_complete (r : Re) (s : Bytes) :
+    pmatch r s = none ↔ ¬ ∃ w post, s = w ++ post ∧ Matches r [] w post :=
+  pmatch_none_iff r s
+
+-- non-vacuity, and the leftmost-FIRST (not leftmost-longest) preference: `^(?:a|ab)` on "ab" is "a"
+example : (parse "^(?:a|ab)").map (fun r => pmatch r [0x61, 0x62]) = some (some [0x61]) ∧
+    (parse "^(?:ab|a)").map (fun r => pmatch r [0x61, 0x62]) = some (some [0x61, 0x62]) ∧
+    (parse "^a{2,3}\\b").map (fun r => pmatch r [0x61, 0x61, 0x61, 0x61]) = some none := by decide
+
+/-- Regenerated obligation: the regex SYNTAX parser, run on the integer rule's
+regex text as found in tokenizer.go now, yields the AST the proofs are about. -/
+theorem int_rule_parses : parse Gen.tokIntRegex = some intRe := by decide
+
+theorem float_rule_parses : parse Gen.tokFloatRegex = some floatRe := by decide
+
+/-- For EVERY input the hand-written integer recogniser returns exactly the
+prefix that the leftmost-first semantics of the parsed, regenerated regex of
+`tokIntRule` selects (`none` = no match).  A change of the regex in the Go
+source either changes `parse Gen.tokIntRegex` (this theorem breaks at
+`int_rule_parses`) or leaves the AST, hence the matched language, unchanged. -/
+theorem int_rule_is_regex (s : Bytes) :
+    (parse Gen.tokIntRegex).map (fun r => pmatch r s) = some (matchInt s) := by
+  rw [int_rule_parses]; exact congrArg some (pmatch_intRe s)
+
+/-- The same for the float rule (the repaired regex, `(?:` instead of `(:?`). -/
+theorem float_rule_is_regex (s : Bytes) :
+    (parse Gen.tokFloatRegex).map (fun r => pmatch r s) = some (matchFloat false s) := by
+  rw [float_rule_parses]; exact congrArg some (pmatch_floatRe s)
+
+example : (parse Gen.tokIntRegex).map (fun r => pmatch r [0x2D, 0x30, 0x37, 0x2C]) = some (some [0x2D, 0x30, 0x37]) ∧
+    (parse Gen.tokFloatRegex).map (fun r => pmatch r [0x31, 0x2E, 0x35, 0x65, 0x2D, 0x33, 0x5D])
+      = some (some [0x31, 0x2E, 0x35, 0x65, 0x2D, 0x33]) := by decide
+
+/-- Every text the float rule's regex admits is accepted by the syntax of
+`strconv.ParseFloat` (decimal literal: digits, optional fraction, optional
+exponent): the converter can refuse a NUM_FLOAT candidate only for being out
+of range — which `keywordToken` tests before it emits the token. -/
+theorem float_rule_admits_only_go_syntax (s t : Bytes)
+    (h : (parse Gen.tokFloatRegex).map (fun r => pmatch r s) = some (some t)) :
+    (goFloatSyntax t).isSome = true := by
+  rw [float_rule_is_regex] at h
+  injection h with h
+  exact matchFloat_goSyntax s t h
+
+/-- … and every text the integer rule's regex admits has the syntax of
+`strconv.ParseInt(…, 10, 64)` (optional sign, digits). -/
+theorem int_rule_admits_only_go_syntax (s t : Bytes)
+    (h : (parse Gen.tokIntRegex).map (fun r => pmatch r s) = some (some t)) :
+    goIntSyntax t = true := by
+  rw [int_rule_is_regex] at h
+  injection h with h
+  exact matchInt_goSyntax s t h
+
+example : goIntSyntax [0x2D, 0x30, 0x37] = true ∧ goIntSyntax [0x2D] = false ∧ goIntSyntax [0x31, 0x5F, 0x30] = false := by
+  decide
+
+theorem string_rule_parses : parse Gen.tokStringRegex = some stringRe := by decide
+
+/- Full statement (NOT proved; the missing half is "whatever `matchString`
+   returns is matched by the regex", i.e. completeness of the regex w.r.t. the
+   recogniser — it is covered by the correspondence runs only):
+     theorem string_rule_is_regex (s : Bytes) :
+       (parse Gen.tokStringRegex).map (fun r => pmatch r s) = some (matchString s) -/
+/-- Whatever prefix the leftmost-first semantics of the parsed, regenerated
+regex of `tokStringRule` selects is returned by the hand-written string
+recogniser — for every input, including invalid UTF-8 (a negated class
+consumes one rune as `utf8.DecodeRune` delimits it). -/
+theorem string_rule_regex_sound_partial (s t : Bytes)
+    (h : (parse Gen.tokStringRegex).map (fun r => pmatch r s) = some (some t)) :
+    matchString s = some t := by
+  rw [string_rule_parses] at h
+  simp only [Option.map_some, Option.some.injEq] at h
+  exact pmatch_stringRe_sound s t h
+
+/-- Hence every LITSTRING token that Go's regexp can return for the rule's
+regex is unquoted without a panic (all escape forms, any bytes). -/
+theorem string_regex_tok_unquote_total (s t : Bytes)
+    (h : (parse Gen.tokStringRegex).map (fun r => pmatch r s) = some (some t)) :
+    ∃ out, unquoteBytes t = some out :=
+  matchString_unquote (string_rule_regex_sound_partial s t h)
+
+example : (parse Gen.tokStringRegex).map (fun r => pmatch r [0x22, 0x61, 0x5C, 0x6E, 0xC3, 0xA9, 0x22, 0x20])
+    = some (some [0x22, 0x61, 0x5C, 0x6E, 0xC3, 0xA9, 0x22]) := by decide
+
+end regex
+
+/-! ## The whole tokenizer: `nextToken` for all token kinds (interpreted from the
+regenerated first-byte switch of `keywordToken` and the regenerated token
+constants) and the `Lex` scanner loop -/
+
+section tokenizer
+open Martian.Tokenizer
+
+/-- Progress, full rule set, for ANY switch table / token-id table (so also for
+the ones found in the source now): the text `nextToken` returns is a prefix of
+the head, and it is non-empty unless the token is INVALID — every iteration
+of `Lex` consumes at least one byte or hands INVALID to the parser. -/
+theorem lexer_progress_full (T : Tables) (head : Martian.Lexer.Bytes) :
+    (nextTokenT T head).2 <+: head ∧
+    ((nextTokenT T head).1 = invalidId T ∨ 0 < (nextTokenT T head).2.length) :=
+  ⟨nextTokenT_prefix T head, nextTokenT_progress T head⟩
+
+/-- Termination of the scanner loop for the regenerated tables: it stops on its
+own (end of input or INVALID) within `length + 1` iterations — more fuel
+changes nothing. -/
+theorem lex_terminates (src : Martian.Lexer.Bytes) (f : Nat) (h : src.length + 1 ≤ f) :
+    lexRawFuel genTables f src startLoc = lexAllRaw src :=
+  lexAllRaw_fuel src f h
+
+/-- The texts of all tokens (skipped white space and comments included), in
+order, followed by the unconsumed rest, are the input; a rest remains only
+after an INVALID token. -/
+theorem lex_reconstructs (src : Martian.Lexer.Bytes) :
+    ((lexAllRaw src).1.map Tok.text).flatten ++ (lexAllRaw src).2 = src ∧
+    ((lexAllRaw src).2 ≠ [] → ∃ pre t, (lexAllRaw src).1 = pre ++ [t] ∧ t.id = invalidId genTables) :=
+  lexAllRaw_reconstructs src
+
+/-- What the reported line of a token is: 1 + the newlines in the white-space
+tokens before it + the number of comment tokens before it. -/
+theorem lex_line (src : Martian.Lexer.Bytes) (pre : List Tok) (t : Tok) (post : List Tok)
+    (h : (lexAllRaw src).1 = pre ++ t :: post) : t.line = 1 + (pre.map (lineAdvance genTables)).sum :=
+  lexAllRaw_line src pre t post h
+
+-- non-vacuity: `in x\n#\n$` is IN, ID, then INVALID on line 3
+example : (lexAll [0x69, 0x6E, 0x20, 0x78, 0x0A, 0x23, 0x0A, 0x24]).map (fun t => (t.id, t.line)) =
+    [(57354, 1), (57378, 1), (57348, 3)] := by decide
+
+/-- Negative witness (recorded, not a totality defect): newlines inside a
+string literal are not counted, so `"a⏎b" x` reports `x` on line 1 although it
+is on line 2 of the file; and a comment cut short by an invalid byte still
+advances the line, so in `#\xff` the INVALID token is reported on line 2 of a
+one-line file. -/
+theorem line_count_quirks :
+    (lexAll [0x22, 0x61, 0x0A, 0x62, 0x22, 0x20, 0x78]).map (fun t => t.line) = [1, 1] ∧
+    (lexAll [0x23, 0xFF]).map (fun t => (t.id, t.line)) = [(57348, 2)] := by decide
+
+end tokenizer
 
 end Props.C08
